@@ -26,7 +26,7 @@ NT_RULE = ('reference sets of 1-8 species over 1-5 descriptors (elements or a cu
            'non-trivial = >=2 descriptors or rank-deficient or a history with a refit; distinct = canonical JSON')
 REQUIRED_ORACLES = ['X1', 'X2', 'X3', 'X4', 'X5']
 REQUIRED_CLASSES = ['rank:unique', 'rank:overdetermined', 'rank:deficient', 'tref:equal', 'tref:spread',
-                    'descriptor:elements', 'descriptor:custom', 'history:append', 'history:pop', 'history:extend',
+                    'descriptor:elements', 'descriptor:custom', 'history:append', 'history:pop', 'history:extend', 'history:dict_copy',
                     'target:absent_descriptor']
 REQUIRED_PROBES = ['References.fit_HoRT_offset', 'References.get_descriptors_matrix', 'References.get_HoRT',
                    'References.get_GoRT', 'StatMech.get_quantity']
@@ -57,7 +57,7 @@ def generate(rng, tier):
     descs = rng.sample(pool, rng.randint(1, 5))
     nd = len(descs)
     kind = rng.choice(['unique', 'unique', 'over', 'deficient', 'any'])
-    n = {'unique': nd, 'over': min(8, nd + rng.randint(1, 3)), 'deficient': rng.randint(1, 8),
+    n = {'unique': nd, 'over': min(8, nd + rng.randint(1, 3)), 'deficient': rng.choice([rng.randint(1, 8), nd, nd]),
          'any': rng.randint(1, 8)}[kind]
     spread = rng.random() < 0.25
     T0 = rng.choice([298.15, 298.15, round(rng.uniform(200, 600), 2)])
@@ -65,7 +65,16 @@ def generate(rng, tier):
     for i in range(n):
         T_ref = round(T0 + (rng.uniform(-0.5, 0.5) if spread else 0.0), 4)
         refs.append(_ref(rng, i, descs, T_ref))
-    if kind == 'deficient' and n >= 2:
+    if kind == 'deficient' and n >= 3 and rng.random() < 0.5:
+        # last row = small integer combination of the first two (singular, but neither a duplicate row nor a
+        # proportional column; square sets of this kind are badly conditioned rather than exactly singular in floats)
+        w1, w2 = rng.choice([1, 2, 3, 4]), rng.choice([1, 2, 3])
+        c0, c1 = refs[0]['comp'], refs[1]['comp']
+        refs[-1]['comp'] = {d: w1 * c0.get(d, 0) + w2 * c1.get(d, 0) for d in descs
+                            if w1 * c0.get(d, 0) + w2 * c1.get(d, 0)}
+        if not refs[-1]['comp']:
+            refs[-1]['comp'] = dict(c0)
+    elif kind == 'deficient' and n >= 2:
         # duplicate a row / make a column proportional
         refs[-1]['comp'] = dict(refs[0]['comp'])
         if nd >= 2 and rng.random() < 0.5:
@@ -236,6 +245,12 @@ def _check_set(ctx, spec, refs_obj, current, tag):
                           scale=scale * T + max(abs(x) for x in off_ref.values()) * T_ref * sum(comp.values()))
             ctx.check('X5', vals['H_sw'] == vals['H_off'] and vals['G_sw'] == vals['G_off'], dict(mech, what='bitwise'),
                       H_sw=vals['H_sw'], H_off=vals['H_off'], G_sw=vals['G_sw'], G_off=vals['G_off'])
+            # a temperature addressed to this species through its <name>_kwargs block must reach the reference
+            # adjustment as well as the modes
+            blk = {'%s_kwargs' % tg['model']['name']: {'T': T}}
+            hb = ctx.call('X3', dict(m3, what='T_via_species_block'), on.get_HoRT, T=0.5 * T + 100., **blk)
+            if hb is not core.NOVALUE:
+                ctx.close('X3', _f(hb), vals['H_on'], 1e-10, dict(m3, what='T_via_species_block'), scale=scale)
             # the same through the dimensional getters (value with units switched off == never referenced)
             for q in ('get_H', 'get_G'):
                 a = ctx.call('X5', dict(mech, q=q, what='dimensional'), getattr(on, q), units='kJ/mol', T=T,
@@ -270,7 +285,14 @@ def run_case(spec, ctx):
     if refs is core.NOVALUE:
         return
     _check_set(ctx, spec, refs, [spec['refs'][i] for i in current], 'init')
-    for op in spec['ops']:
+    shadows = []
+    for k_op, op in enumerate(spec['ops']):
+        if k_op == 0 and (ctx.case_index or 0) % 3 == 0:
+            # an independent copy taken straight from the dictionary (no JSON text in between)
+            cp = ctx.call('X2', {'step': 'from_dict(to_dict)'}, lambda r_: References.from_dict(r_.to_dict()), refs)
+            if cp is not core.NOVALUE:
+                ctx.cls('history:dict_copy')
+                shadows.append((cp, dict(cp.offset), [spec['refs'][i] for i in current]))
         if op[0] == 'append':
             ctx.cls('history:append')
             refs.append(objs[op[1]]); current.append(op[1])
@@ -286,3 +308,6 @@ def run_case(spec, ctx):
         if r is core.NOVALUE:
             return
         _check_set(ctx, spec, refs, [spec['refs'][i] for i in current], op[0])
+    for cp, off0, cur0 in shadows:
+        same = set(cp.offset) == set(off0) and all(cp.offset[k_] == off0[k_] for k_ in off0)
+        ctx.check('X2', same, {'step': 'dict_copy_changed_by_refit_of_original'}, before=off0, after=dict(cp.offset))
